@@ -6,11 +6,6 @@ A summary is determined by the set of occurrences it summarises (used for "ident
 -/
 namespace Fsic.Parser
 
-instance (a b : TermType) : Decidable (TypeLe a b) := by unfold TypeLe; infer_instance
-
-theorem TypeLe.antisymm {a b : TermType} : TypeLe a b → TypeLe b a → a = b := by
-  cases a <;> cases b <;> decide
-
 theorem Summ.unique {c c' : Symbol} {occ occ' : List Symbol} (h : Summ c occ) (h' : Summ c' occ')
     (hm : ∀ s, s ∈ occ ↔ s ∈ occ') (hn : c.name = c'.name) : c = c' := by
   obtain ⟨s0, hs0, hs0t⟩ := h.typeAtt
